@@ -158,8 +158,15 @@ def r3(ctx):
         f = ctx.repo.func(fq)
         cfg = ctx.cfg(f)
         fv = FuncView.of(f.node)
-        last = [r for r in cfg.raise_stmts() if raise_class(r) == "ValueError" and fv.enclosing(r, (ast.For, ast.While, ast.If, ast.Try)) is None]
-        ctx.ob("R3", "EXIT", f, "not found -> ValueError", bool(last) and not cfg.falls_off_end(), "ends in an unconditional `raise ValueError`" if last else "does not end in `raise ValueError`")
+        # "nothing found" ends in ValueError: the function cannot fall off its end (which would return None), a
+        # `raise ValueError` is reachable from the entry without passing a `return`, and no reachable raise names another class
+        rs = [r for r in cfg.raise_stmts() if cfg.reaches(ENTRY, cfg.node(r))]
+        ve = [r for r in rs if raise_class(r) == "ValueError" and fv.enclosing(r, (ast.Try,)) is None]
+        other = [raise_class(r) for r in rs if raise_class(r) not in ("ValueError", None)]
+        ok = bool(ve) and not cfg.falls_off_end() and not other
+        ctx.ob("R3", "EXIT", f, "not found -> ValueError", ok,
+               "a `raise ValueError` outside any try is reachable, the function cannot fall off its end, no other class is raised" if ok else
+               f"raise ValueError reachable={bool(ve)}; falls off end={cfg.falls_off_end()}; other raised classes={other}")
     f = ctx.repo.func("c2.parse_raw_http")
     cfg = ctx.cfg(f)
     ok = not cfg.falls_off_end() and all(raise_class(r) == "ValueError" for r in cfg.raise_stmts())
